@@ -463,6 +463,9 @@ def sql_addresses(schema, sim, names, limit=6):
     n = 0
     ots = [o for o in user_objects(schema, s_objtypes.ObjectType) if pg_types.has_table(o, schema)]
     ots.sort(key=lambda o: str(o.get_name(schema)))
+    # columns named after the pointer (names starting with `__`, see types._source_table_info)
+    by_name = {p.get_shortname(schema).name for p in user_objects(schema, s_pointers.Pointer)}
+    by_name = {x for x in by_name if x.startswith('__') and x != '__type__'}
     for ot in ots[:limit]:
         els = []
         for pn, p in ot.get_pointers(schema).items(schema):
@@ -500,7 +503,7 @@ def sql_addresses(schema, sim, names, limit=6):
 
             def visit_ColumnRef(self, node):
                 for part in node.name:
-                    if isinstance(part, str) and UUID_RE.fullmatch(part):
+                    if isinstance(part, str) and (UUID_RE.fullmatch(part) or part in by_name):
                         cols.add(part)
                 self.generic_visit(node)
         V().visit(res.ast)
